@@ -254,3 +254,27 @@ Lemma read_exact_total cs n b r : read_exact n cs = Some (b, r) -> total_len cs 
 Proof.
   intro H. unfold total_len. rewrite (read_exact_concat _ _ _ _ H), blen_app, (read_exact_len _ _ _ _ H). reflexivity.
 Qed.
+
+(* ---- a read that returns 0 bytes is EOF: what follows an empty chunk is never looked at ---- *)
+Lemma read_exact_eof_app cs1 cs2 : forall n,
+  read_exact n (cs1 ++ [] :: cs2) =
+  match read_exact n cs1 with Some (b, r) => Some (b, r ++ [] :: cs2) | None => None end.
+Proof.
+  induction cs1 as [|c cs1 IH]; intro n; cbn [app read_exact]; destruct (n =? 0) eqn:E0; try reflexivity.
+  destruct (blen c =? 0); [reflexivity|]. destruct (n <? blen c); [reflexivity|].
+  rewrite IH. destruct (read_exact (n - blen c) cs1) as [[b r]|]; reflexivity.
+Qed.
+
+Lemma read_take_eof_app cs1 cs2 : forall n,
+  fst (read_take n (cs1 ++ [] :: cs2)) = fst (read_take n cs1) /\
+  (blen (fst (read_take n cs1)) = n -> snd (read_take n (cs1 ++ [] :: cs2)) = snd (read_take n cs1) ++ [] :: cs2).
+Proof.
+  induction cs1 as [|c cs1 IH]; intro n; cbn [app read_take]; destruct (n =? 0) eqn:E0; cbn [fst snd]; try (split; reflexivity).
+  - apply N.eqb_neq in E0. cbn [blen length N.of_nat N.eqb fst snd]. split; [reflexivity|]. unfold blen. cbn. lia.
+  - apply N.eqb_neq in E0.
+    destruct (blen c =? 0); [cbn [fst snd]; split; reflexivity|].
+    destruct (n <? blen c) eqn:En; [cbn [fst snd]; split; reflexivity|]. apply N.ltb_ge in En.
+    specialize (IH (n - blen c)).
+    destruct (read_take (n - blen c) (cs1 ++ [] :: cs2)) as [b1 r1], (read_take (n - blen c) cs1) as [b2 r2].
+    cbn [fst snd] in *. destruct IH as [-> IH2]. split; [reflexivity|]. rewrite blen_app. intro H. apply IH2. lia.
+Qed.
